@@ -54,7 +54,7 @@ const std::string & root()
 {
   State & s = S();
   if (s.real_root.empty()) {
-    s.real_root = "/verif/build/tmp/simfs-" + std::to_string((long)getpid());
+    s.real_root = build_dir() + "/tmp/simfs-" + std::to_string((long)getpid());
     std::string cmd = "mkdir -p '" + s.real_root + "'";
     int r = system(cmd.c_str()); (void)r;
   }
